@@ -343,6 +343,12 @@ def run(tier):
     rep.assume('pixel comparison is up to the configured palette: a display colour index must always map to the same RGB value, distinct indexes to distinct entries')
     check_exhaustive(rep)
     check_rotate(rep)
+    check_udg_methods(rep)          # Udg.rotate / Udg.flip: graphic and mask transformed alike, for every parameter value
+    na, bada = arrays_small_scope()
+    rep.bounded.append({'function': 'skoolkit.graphics.flip_udgs / rotate_udgs', 'contract': 'pixel and mask grids of the array == reference flip / rotation of the original grids',
+                        'bound': 'array shapes 1x1..3x3, 3 random fillings each, flip 0..3, rotate 0..4', 'evaluations': na})
+    for b in bada[:3]:
+        rep.violation('C15/arrays/%s=%s/%s' % (b[0], b[1], b[3]), '%s_udgs(udgs, %d) on a %dx%d array: %s grid differs from the reference transformation' % (b[0], b[1], b[2][0], b[2][1], b[3]), {'case': {'array_op': b[0], 'arg': b[1], 'shape': list(b[2])}})
     quick = tier == 'quick'
     n = 300 if quick else 6000
     per = max(1, n // (common.NCPU * 2))
@@ -369,6 +375,21 @@ def replay(path):
         doc = json.load(f)
     print('replaying', doc.get('key'), doc.get('case'))
     case = doc.get('case')
+    if isinstance(case, dict) and 'udg_method' in case:
+        r = replay_udg(case['udg_method'], case['arg'])({}, '')
+        print(r['diffs'])
+        if r['diffs']:
+            print('VIOLATION property=C15 replay=%s' % path)
+            return 1
+        return 0
+    if isinstance(case, dict) and 'array_op' in case:
+        n, bad = arrays_small_scope()
+        bad = [b for b in bad if b[0] == case['array_op'] and b[1] == case['arg']]
+        print(bad[:3])
+        if bad:
+            print('VIOLATION property=C15 replay=%s' % path)
+            return 1
+        return 0
     if isinstance(case, dict) and 'data' in case:
         r = replay_rotate(case['backwards'])({'d%d' % i: v for i, v in enumerate(case['data'])}, '')
         print(r['diffs'])
@@ -377,3 +398,147 @@ def replay(path):
             return 1
         return 0
     return 1
+
+
+# ------------------------------------------------------------------ P: Udg.rotate / Udg.flip on graphic and mask together
+def _bitrev(b):
+    """FLIP[b] by its contract (proved entry by entry in check_exhaustive): bit i of b becomes bit 7 - i."""
+    out = 0
+    for i in range(8):
+        out = out | (((b >> i) & 1) << (7 - i))
+    return out
+
+
+def _pix(rows, x, y):
+    return (rows[y] >> (7 - x)) & 1
+
+
+def _src_rotate(r, x, y):
+    """Source pixel of (x, y) after r clockwise quarter turns."""
+    for _ in range(r % 4):
+        x, y = y, 7 - x
+    return x, y
+
+
+def check_udg_methods(rep):
+    from skoolkit.graphics import Udg, FLIP
+    from pyvc.engine import TabRef
+    W = poly.W
+    flip_tab = TabRef('FLIP', (256,), _bitrev, (), FLIP)
+
+    def mk(eng):
+        p = eng.path
+        p.data = [SV(z3.BitVec('d%d' % i, W), 0, 255) for i in range(8)]
+        p.mask = [SV(z3.BitVec('m%d' % i, W), 0, 255) for i in range(8)]
+        for d in p.data + p.mask:
+            p.facts.append(z3.And(d.t >= 0, d.t <= 255))
+        u = ObjModel(None, name='udg', cls=Udg)
+        u.attrs.update({'attr': 56, 'data': SymList(list(p.data), 'data'), 'mask': SymList(list(p.mask), 'mask')})
+        p.u = u
+        eng.objmap = {id(FLIP): flip_tab}
+        return u
+
+    def rows(v):
+        return list(v.items) if isinstance(v, SymList) else list(v)
+
+    for r in range(8):
+        def start(eng, r=r):
+            u = mk(eng)
+            eng.call_function(Udg.rotate, [u, r])
+
+        def post(p, prove, r=r):
+            for what, orig in (('graphic', p.data), ('mask', p.mask)):
+                out = rows(p.u.attrs['data' if what == 'graphic' else 'mask'])
+                prove('post.%s.length' % what, len(out) == 8)
+                if len(out) != 8:
+                    continue
+                for y in range(8):
+                    prove('post.%s.byte_range' % what, and_(out[y] >= 0, out[y] <= 255))
+                    for x in range(8):
+                        sx, sy = _src_rotate(r, x, y)
+                        prove('post.%s.pixel' % what, cmpop('==', _pix(out, x, y), _pix(orig, sx, sy)))
+        FuncVC(rep, 'C15', Udg.rotate, 'skoolkit.graphics.Udg.rotate[rotate=%d]' % r, Engine(inline_ok=lambda f: f.__module__ == 'skoolkit.graphics')).run(start, post, replay_udg('rotate', r))
+
+    for fl in range(4):
+        def startf(eng, fl=fl):
+            u = mk(eng)
+            eng.call_function(Udg.flip, [u, fl])
+
+        def postf(p, prove, fl=fl):
+            for what, orig in (('graphic', p.data), ('mask', p.mask)):
+                out = rows(p.u.attrs['data' if what == 'graphic' else 'mask'])
+                prove('post.%s.length' % what, len(out) == 8)
+                if len(out) != 8:
+                    continue
+                for y in range(8):
+                    for x in range(8):
+                        sx = 7 - x if fl & 1 else x
+                        sy = 7 - y if fl & 2 else y
+                        prove('post.%s.pixel' % what, cmpop('==', _pix(out, x, y), _pix(orig, sx, sy)))
+        FuncVC(rep, 'C15', Udg.flip, 'skoolkit.graphics.Udg.flip[flip=%d]' % fl, Engine(inline_ok=lambda f: f.__module__ == 'skoolkit.graphics')).run(startf, postf, replay_udg('flip', fl))
+
+
+def replay_udg(method, arg):
+    def rp(vals, kind):
+        from skoolkit.graphics import Udg
+        import random
+        rnd = random.Random(arg)
+        for t in range(50):
+            data = [vals.get('d%d' % i, 0) & 255 for i in range(8)] if t == 0 else [rnd.randrange(256) for _ in range(8)]
+            mask = [vals.get('m%d' % i, 0) & 255 for i in range(8)] if t == 0 else [rnd.randrange(256) for _ in range(8)]
+            u = Udg(56, list(data), list(mask))
+            getattr(u, method)(arg)
+            for what, orig, out in (('graphic', data, u.data), ('mask', mask, u.mask)):
+                for y in range(8):
+                    for x in range(8):
+                        if method == 'rotate':
+                            sx, sy = _src_rotate(arg, x, y)
+                        else:
+                            sx, sy = (7 - x if arg & 1 else x), (7 - y if arg & 2 else y)
+                        if _pix(out, x, y) != _pix(orig, sx, sy):
+                            return {'case': {'udg_method': method, 'arg': arg, 'data': data, 'mask': mask}, 'diffs': [('%s pixel (%d,%d)' % (what, x, y), _pix(out, x, y), _pix(orig, sx, sy))]}
+        return {'case': {'udg_method': method, 'arg': arg}, 'diffs': []}
+    return rp
+
+
+def arrays_small_scope():
+    """B (small scope): flip_udgs / rotate_udgs on every array shape up to 3 x 3 (distinct random tiles with masks):
+    the composed pixel and mask grids equal the reference transformation of the original grids."""
+    import random
+    from skoolkit.graphics import Udg, flip_udgs, rotate_udgs
+    rnd = random.Random(15)
+    bad = []
+    n = 0
+
+    def grid(udgs, attr):
+        g = []
+        for row in udgs:
+            for y in range(8):
+                line = []
+                for u in row:
+                    src = getattr(u, attr)
+                    line += [(src[y] >> (7 - x)) & 1 for x in range(8)]
+                g.append(line)
+        return g
+    for h in range(1, 4):
+        for w in range(1, 4):
+            for trial in range(3):
+                base = [[Udg(rnd.randrange(256), [rnd.randrange(256) for _ in range(8)], [rnd.randrange(256) for _ in range(8)]) for _ in range(w)] for _ in range(h)]
+                for kind, arg in [('flip', f) for f in range(4)] + [('rotate', r) for r in range(5)]:
+                    n += 1
+                    udgs = [[u.copy() for u in row] for row in base]
+                    (flip_udgs if kind == 'flip' else rotate_udgs)(udgs, arg)
+                    for attr in ('data', 'mask'):
+                        g0 = grid(base, attr)
+                        H, Wd = len(g0), len(g0[0])
+                        if kind == 'flip':
+                            exp = [[g0[(H - 1 - y) if arg & 2 else y][(Wd - 1 - x) if arg & 1 else x] for x in range(Wd)] for y in range(H)]
+                        else:
+                            exp = g0
+                            for _ in range(arg % 4):
+                                hh, ww = len(exp), len(exp[0])
+                                exp = [[exp[hh - 1 - x][y] for x in range(hh)] for y in range(ww)]
+                        got = grid(udgs, attr)
+                        if got != exp:
+                            bad.append((kind, arg, (h, w), attr))
+    return n, bad
